@@ -18,10 +18,13 @@
    either implementation, given that each one round-trips by itself
    ([roundtrips]: C01_soft_resource_roundtrip / C01_wrapped_resource_roundtrip
    provide exactly that) -- collections may mix soft and struct-backed
-   members.  NOT PROVED (correspondence + oracle only): identifier documents. *)
+   members.  [C02_document_roundtrip_identifier(s)]: identifier documents come
+   back as what UnmarshalDocument makes of type/id objects -- one resource per
+   identifier, in order, of the identifier's type, with its id and no other
+   value ([bare_resource]); a nil identifier list comes back as no data. *)
 From JV Require Import Model.Base Model.GoTime Gen.TypeGo Model.Schema Model.Value
   Model.Json Model.Resource Model.Marshal Model.Unmarshal Model.Document
-  Model.SoftRes Proofs.C03Facts Proofs.C02Facts Proofs.C01Full Proofs.C02Full Proofs.C02Errors Proofs.C02Generic.
+  Model.SoftRes Proofs.C03Facts Proofs.C02Facts Proofs.C01Full Proofs.C02Full Proofs.C02Errors Proofs.C02Generic Proofs.C02Idents.
 
 Theorem C02_written_kind_partial : forall e d fields dj,
   marshal_data e d fields = Ok (Some dj) ->
@@ -115,6 +118,46 @@ Theorem C02_document_roundtrip_collection_any : forall e sc fields self d incl',
               unmarshal_document e sc j = Ok u /\ u_data u = UCol l' /\ rest_ok_gen d incl' u.
 Proof. exact doc_roundtrip_collection_any. Qed.
 Print Assumptions C02_document_roundtrip_collection_any.
+
+(* ---- identifier documents ---- *)
+Theorem C02_document_roundtrip_identifier : forall e sc fields self d incl,
+  d_included d = map RSoft incl -> Forall (rt_ok e sc fields (d_reldata d)) incl ->
+  d_errors d = [] -> forall i,
+  d_data d = DIdent i -> ident_ok sc i ->
+  exists j u, marshal_document e d fields self = Ok j /\
+              unmarshal_document e sc j = Ok u /\
+              u_data u = URes (bare_resource sc i) /\ rest_ok d incl u.
+Proof. exact doc_roundtrip_identifier. Qed.
+Print Assumptions C02_document_roundtrip_identifier.
+
+Theorem C02_document_roundtrip_identifiers : forall e sc fields self d incl,
+  d_included d = map RSoft incl -> Forall (rt_ok e sc fields (d_reldata d)) incl ->
+  d_errors d = [] -> forall l,
+  d_data d = DIdents false l -> Forall (ident_ok sc) l ->
+  exists j u, marshal_document e d fields self = Ok j /\
+              unmarshal_document e sc j = Ok u /\
+              u_data u = UCol (map (bare_resource sc) l) /\ rest_ok d incl u.
+Proof. exact doc_roundtrip_identifiers. Qed.
+Print Assumptions C02_document_roundtrip_identifiers.
+
+Theorem C02_document_roundtrip_nil_identifiers : forall e sc fields self d incl,
+  d_included d = map RSoft incl -> Forall (rt_ok e sc fields (d_reldata d)) incl ->
+  d_errors d = [] -> forall l,
+  d_data d = DIdents true l ->
+  exists j u, marshal_document e d fields self = Ok j /\
+              unmarshal_document e sc j = Ok u /\ u_data u = UNil /\ rest_ok d incl u.
+Proof. exact doc_roundtrip_nil_identifiers. Qed.
+Print Assumptions C02_document_roundtrip_nil_identifiers.
+
+Theorem C02_bare_resource_reads : forall sc i,
+  res_type_name (bare_resource sc i) = tname (get_type (sch_schema sc) (i_type i)) /\
+  res_get (bare_resource sc i) "id" = Ok (VStr (i_id i)).
+Proof. exact bare_resource_reads. Qed.
+Print Assumptions C02_bare_resource_reads.
+
+Example c02_ident_ok_example :
+  ident_ok (mkSch (mkSchema [mkType "t" [] []]) []) (mkIdent "7" "t").
+Proof. split; [discriminate|reflexivity]. Qed.
 
 (* ---- error objects and error documents ---- *)
 Theorem C02_error_object_roundtrip : forall er,
